@@ -334,6 +334,8 @@ class QosWorld:
             acts.append((("disc",), 1))
         if "pause" in dev and not self.paused and self.connected:
             acts.append((("pause",), 1))
+        if "pause" in dev and self.paused and self.connected:  # (an MQTT gateway going offline and coming back online)
+            acts.append((("resume",), 1))
         if "call" in dev:
             for i in unstarted:
                 if (("call", i), 0) not in acts:
@@ -385,6 +387,9 @@ class QosWorld:
         elif k == "pause":
             self.paused = True
             self.proto.pause_writing()
+        elif k == "resume":
+            self.paused = False
+            self.proto.resume_writing()
         elif k == "foreign":
             last = self.writes[-1][2]
             self.foreign_done.add((a[1], last))
